@@ -35,7 +35,7 @@ func outputFuncs(p *core.Program) []*ssa.Function {
 	for _, fn := range p.ModFunctions(false) {
 		if fn.Name() == "GenerateOutput" && fn.Signature.Recv() != nil && core.FnPkgPath(fn) == core.ExpandKey(webdocPkg) {
 			if n := core.NamedOf(fn.Signature.Recv().Type()); n != nil && n.Obj().Name() != "Document" {
-				out = append(out, fn)
+				out = append(out, p.Inlined(fn)) // unexported helpers expanded
 			}
 		}
 	}
